@@ -422,6 +422,15 @@ int main()
       it->second.e.reset();
       g_exps.erase(it);
     }
+    else if (op == "rmexpx")
+    {
+      // the expectation's lifetime ends during stack unwinding (scope exit by exception)
+      auto it = g_exps.find(I(1));
+      if (it == g_exps.end()) bad("rmexpx", line);
+      struct Guard { exp_ptr* p; ~Guard() { p->reset(); } };
+      try { Guard g{&it->second.e}; throw 42; } catch (int) {}
+      g_exps.erase(it);
+    }
     else if (op == "qexp")
     {
       auto& r = g_exps.at(I(1));
